@@ -3,6 +3,7 @@ import Proofs.C15.Text
 import Proofs.C15.Sound
 import Proofs.C15.OpsCount
 import Proofs.C15.SatCond
+import Model.C15.Decode
 /-!
 # C15 — miniscript typing, compilation, read-back and satisfaction are consistent
 
@@ -191,5 +192,23 @@ example (E : EvalEnv) (k : Key) (σ : Bytes) (hσ : E.sigOK k σ = true) (y : Ms
     Sat E (.bin .or_i (.bin .and_v (.wrap .v (.wrap .c (.pk_k k))) .f1) y) ([1] :: ([σ] ++ [])) :=
   .or_i_l _ _ _ (.and_v _ _ _ _ (.wrap _ _ _ (by decide) (by decide)
     (.wrap _ _ _ (by decide) (by decide) (.pk_k k σ hσ))) .f1)
+
+/- T2' (read-back, full statement, NOT proved): for every well-typed `n`,
+   `Decode.fromScript ctx keyOfHash (compile ctx h160 false n) = some n'` with
+   `compile ctx h160 false n' = compile ctx h160 false n`.  The decoder model
+   (`Model/C15/Decode.lean`: `_decomposed` and the `_Decoder` state machine, state for state) is
+   tied by the `decode` stream (compiled scripts and op-code-aware corruptions of them); the
+   invariant proof over the machine is not done.  Instances check by evaluation: -/
+example :
+    let k : Key := 2 :: List.replicate 32 7
+    let n : Ms := .bin .and_v (.wrap .v (.wrap .c (.pk_k k))) (.older 5)
+    Decode.fromScript .p2wsh (fun _ => none) (compile .p2wsh (fun _ => []) false n) = some n := by
+  decide +kernel
+
+example :
+    let k : Key := List.replicate 32 7
+    let n : Ms := .bin .or_d (.multi_a 1 [k, k]) (.bin .and_v (.wrap .v (.hash .sha256 (List.replicate 32 1))) (.after 500000001))
+    Decode.fromScript .tapscript (fun _ => none) (compile .tapscript (fun _ => []) false n) = some n := by
+  decide +kernel
 
 end Props.C15
